@@ -1211,7 +1211,7 @@ func runC20(res *hx.Result, rng *hx.Rng, tier string, outdir string) {
 	rng = hx.NewRng(rng.U64())
 	n, nReused := 1000, 350
 	if tier == "thorough" {
-		n, nReused = 40000, 14000
+		n, nReused = 40000, 8000
 	}
 	defect := probeC20(res)
 	keeps := probeC20Keeps(res)
